@@ -16,10 +16,25 @@ TRUSTED = [
     "(unitarity both ways over the complete range; D(a,b,c)=exp(-i m a) d(b) exp(-i mp c); d real orthogonal; "
     "composition with z rotations on either side; D(0,0,0)=1); general D_mul for arbitrary pairs of rotations "
     "and j>2 are trusted",
-    "the bridge from the regenerated kinematics (frame_aligns, rotz_shifts_phi, frame_covariant_z, "
-    "wigner_convention) to the abstract algebra (that a formulated chain amplitude IS amp1/amp2 with "
-    "h = euler(Phi p, Theta p, 0)) is proved only for rotations about z; for general rotations it is the "
-    "standard stabiliser argument, not formalised; the model as a whole is covered by the numeric harness only",
+    "PROVED bridge (coq/props/C04_general.v, on regenerated Phi/Theta/RotationZ/RotationY/BoostZ and the "
+    "frame arguments of compute_helicity_angles): for EVERY proper 3x3 rotation g and every p with p and g.p off "
+    "the z axis, F(g.p).g.F(p)^T = RotationZMatrix(delta) (stabiliser argument), hence h(g.p) = g.h(p).Rz(-delta) "
+    "for h(p) = F(p)^T = Rz(Phi p)Ry(Theta p); the z boost commutes with Rz and its parameter |p|/E is unchanged, so "
+    "every second-level momentum changes only by Rz(delta): Theta unchanged, Phi shifted by delta, "
+    "h2 -> Rz(delta).h2, third and deeper levels unchanged; these are exactly the arguments of Rot.cascade_invariant, "
+    "and C04_cascade_invariant_general_rotation concludes invariance of the two-node cascade intensity "
+    "formulated with the code's frames under all proper rotations",
+    "NOT proved: that the expression tree returned by HelicityAmplitudeBuilder.formulate() for an arbitrary "
+    "topology IS amp2/its n-node generalisation with these frames and with D index = lambda_helicity - "
+    "lambda_opposite (C04_wigner_convention pins the D arguments for the 36 nodes of J/psi -> 3 pi only; the "
+    "opposite-helicity-isobar chains are known NOT to be of that form, see known findings); three and more "
+    "nodes, two decaying children, and multi-topology/aligned models are covered by the numeric harness only",
+    "the Section hypotheses of the instance are stated over G = SO(3) (subtype of proper 3x3 matrices, equality "
+    "by proof irrelevance from Classical_Prop.classic): D_mul, D_unit, rng_nodup, D_rz_diag (D of RotationZ is "
+    "diagonal), D_rz_char (D^J(Rz(-a))_{ll} D^s(Rz(a))_{ll} = 1); for half-integer spin the true Wigner matrices "
+    "satisfy D_mul on SO(3) only up to a sign (they are representations of SU(2)); a sign common to a whole "
+    "single-chain amplitude does not change |A|^2 but this is not formalised (and is exactly what goes wrong "
+    "between chains in the axis-angle finding)",
     "bridge/symexec.py (symbolic execution of lambdified NumPy source on one event; SymPy's automatic scalar "
     "simplifications) for the per-event meaning of Phi/Theta and of the frame's angle arguments",
     "floating point: the harness compares float64 intensities with relative tolerance 1e-9 on events whose "
@@ -37,7 +52,9 @@ RULE = ("corpus reactions x {every single topology; all topologies unaligned; ax
 def run(chk):
     chk.assumptions += [
         "PARTIAL: SU(2) representation theory enters as named Section hypotheses (see trusted_base); floating-point "
-        "evaluation is not modelled",
+        "evaluation is not modelled; proved: kinematic conventions + frame covariance under ALL proper rotations + "
+        "two-node cascade invariance over abstract D; not proved: that formulate()'s expression is that cascade "
+        "(numeric harness), n>2 nodes, multi-topology",
         "hypothesis of the property: complete projection sets; reactions with J/psi restricted to +-1 are only "
         "required (and checked) to be invariant under rotations about z",
         "multi-topology models without alignment and with a spinful final state are outside the property",
@@ -52,6 +69,13 @@ def run(chk):
         chk.broken.append({"file": "symgen_C04.py", "item": "model regeneration", "coqc_output": out[-1500:]})
     else:
         proofs_ok = chk.compile_chain(["Gen_C04.v"], ["C04_lemmas.v"], "C04.v", timeout=900)
+        # the general-rotation bridge is a separate chain: a failure there is reported on its own and
+        # cannot mask the obligations of C04.v (which needs only Gen_C04 and C04_lemmas)
+        general_ok = chk.compile_chain([], ["C04_general.v"], "C04_general_props.v", timeout=900) \
+            if proofs_ok else False
+        if not proofs_ok:
+            chk.obligations.extend(chk.theorem_names(os.path.join(checklib.COQ_PROPS, "C04_general_props.v")))
+        proofs_ok = proofs_ok and general_ok
     tier = chk.tier if proofs_ok else "thorough"
     n_events = 60 if tier == "thorough" else 20
     rc, doc, out = chk.bridge_json("search_C04.py", [str(chk.seed), str(n_events), tier], timeout=1700)
